@@ -161,6 +161,8 @@ def _build(case, callbacks):
         callbacks=callbacks,
         random_state=case["random_state"],
     )
+    if case.get("progress_updates") is not None:
+        kw["progress_updates"] = case["progress_updates"]  # progress reports (printed) must not change the schedule
     if case["max_iter_via"] == "base":
         if ycol["type"] == "cont":
             kw["y_transform"] = None
@@ -218,7 +220,11 @@ def check(case):
 
     est, rec = _build(case, cb_arg)
     try:
-        ret = est.fit(X, AC.wrap(yv, kind), sensitive_features=AC.wrap(av, kind))
+        import contextlib
+        import io
+
+        with contextlib.redirect_stdout(io.StringIO()):  # progress reports are printed
+            ret = est.fit(X, AC.wrap(yv, kind), sensitive_features=AC.wrap(av, kind))
     except RuntimeError as e:
         if "between 0 and 1" in str(e):
             # SGD blew up (NaN weights -> NaN sigmoid output rejected by torch's BCELoss): not a schedule matter
@@ -246,7 +252,7 @@ def check(case):
         twin, _ = _build(case, None)
         for k, (lo, hi) in enumerate(exp_steps):
             kw = {}
-            if k == 0 and case.get("pass_classes") and ycol["type"] != "cont":
+            if (k == 0 or case.get("classes_every_call")) and case.get("pass_classes") and ycol["type"] != "cont":
                 kw["classes"] = np.asarray(sorted(AC.LABELS[ycol["enc"]]))
             twin.partial_fit(X[lo:hi], AC.wrap(yv[lo:hi], kind), sensitive_features=AC.wrap(av[lo:hi], kind), **kw)
         pa, pb = _params(est), _params(twin)
@@ -441,6 +447,8 @@ def _cases(draw):
         "random_state": draw(st.integers(0, 1000)),
         "container": draw(st.sampled_from(["ndarray", "ndarray", "list", "series"])),
         "pass_classes": draw(st.booleans()),
+        "classes_every_call": draw(st.booleans()),
+        "progress_updates": draw(st.sampled_from([None, None, 1e-9, 1e-7, 0.5])),
     }
 
 
